@@ -264,9 +264,49 @@ def kernel_uses_own_mode():
     return None, None
 
 
+def many_modes():
+    """more than ten clusters (and sparse label sets): mode k is the fit of the particles labelled k"""
+    from tempest.modes import ModeStatistics
+    rng = np.random.RandomState(6)
+    for K, labels_used in ((12, None), (25, None)):
+        d = 2
+        centres = np.c_[(np.arange(K) % 6 + 0.5) / 6.0, (np.arange(K) // 6 + 0.5) / 6.0]
+        used = range(K) if labels_used is None else labels_used
+        lab = np.concatenate([np.full(30, k) for k in used])
+        u = np.concatenate([centres[k] + 0.004 * rng.standard_normal((30, d)) for k in used])
+        w = np.full(len(u), 1.0 / len(u))
+        st = np.random.get_state()
+        np.random.seed(2)
+        try:
+            ms = ModeStatistics.from_particles(u, w, lab, n_modes=K) if labels_used is None else ModeStatistics.from_particles(u, w, lab)
+        except TypeError:
+            try:
+                ms = ModeStatistics.from_particles(u, w, lab)
+            except Exception as e:
+                return f"from_particles with {K} clusters raised {type(e).__name__}: {e}", {"K": K}
+        except Exception as e:
+            return f"from_particles with {K} clusters raised {type(e).__name__}: {e}", {"K": K}
+        finally:
+            np.random.set_state(st)
+        means = np.asarray(ms.means)
+        for k in used:
+            if k < len(means) and np.abs(means[k] - centres[k]).max() > 0.02:
+                j = int(np.argmin(np.abs(centres - means[k]).sum(axis=1)))
+                return (f"ModeStatistics.from_particles with labels {'0..' + str(K - 1) if labels_used is None else list(labels_used)}: mode {k} has mean {means[k].round(4).tolist()}, the particles "
+                        f"labelled {k} sit at {centres[k].round(4).tolist()} (that mean belongs to cluster {j})"), {"K": K, "labels": "all" if labels_used is None else list(labels_used)}
+    return None, None
+
+
 def main():
     p = json.load(open(sys.argv[1]))
     tried = 0
+    try:
+        r, what = many_modes()
+    except Exception as e:
+        r, what = f"many-modes scenario raised {type(e).__name__}: {e}", {"case": "many_modes"}
+    if r:
+        print(json.dumps({"reproduced": True, "tried": 1, "detail": r, "input": what}, default=str))
+        return
     try:
         r, what = kernel_uses_own_mode()
     except Exception as e:
